@@ -227,7 +227,8 @@ ADDED = {
            "histories (siblings first, same call twice, after rejected calls under ambient precision 5) and "
            "a fresh interpreter with low precision set before import."
            " Neighbour histories (one argument changed by a unit or its sign first), keyword call forms, and a product lattice of rates 2^a+d x ticks 2^c+e (d, e in -3..1)."
-           " Tick counts and product bounds taken from ebb_calc's own source (literals and folded constant expressions), rate x T just below 2^52 / 2^53 for T around every power of two; calls under warnings-as-errors.",
+           " Tick counts and product bounds taken from ebb_calc's own source (literals and folded constant expressions), rate x T just below 2^52 / 2^53 for T around every power of two; calls under warnings-as-errors."
+           " Every representative call again from a fresh thread (ambient precision 5 digits) and in python -O / -OO child interpreters.",
     "C02": " Rows touching 2^31-1 / -2^31 at a chosen tick, boundary-directed accumulators for long moves, "
            "call histories and the fresh low-precision interpreter as for C01."
            " Neighbour histories and keyword call forms as for C01."
@@ -236,13 +237,16 @@ ADDED = {
            "tick 0..turn counts short of / past a step boundary; moveTimeLM must report 0 for cannot-move "
            "requests; call histories as for C01."
            " Turns up to 600 million ticks in; boundary-directed accelerations with a long binary reciprocal; neighbour histories and keyword call forms."
-           " Wrong-constant and late-turn rows (accel -3..-255, margins 0..5); calls under warnings-as-errors.",
+           " Wrong-constant and late-turn rows (accel -3..-255, margins 0..5); calls under warnings-as-errors."
+           " Call forms from a fresh thread and in -O / -OO interpreters.",
     "C17": " Window-edge rows (turning point k/|jerk| of a tick inside the sampling window); call histories as for C01."
            " Neighbour histories and keyword call forms as for C01."
-           " Moves of 2^31 ticks and more; jerk a thousand times smaller than the acceleration; turning points a hair inside the window edge at |jerk| 1e8..6e8, T 4..12.",
+           " Moves of 2^31 ticks and more; jerk a thousand times smaller than the acceleration; turning points a hair inside the window edge at |jerk| 1e8..6e8, T 4..12."
+           " Move lengths written in ebb_calc's source (and 4096, 100000) with jerk 1..7 and the turning point inside the move.",
     "C04": " connect() against a pre-release of the minimum firmware must be refused."
            " Almost-right replies (same first letter; cut short; long error text after 88 characters of echo) and errno-carrying exceptions (EAGAIN, EINTR, EPIPE)."
-           " Stale lines in front of a reply; every exception class and message text pyserial's own read()/write() can raise (harvested from the installed pyserial).",
+           " Stale lines in front of a reply; every exception class and message text pyserial's own read()/write() can raise (harvested from the installed pyserial)."
+           " The restart-name exemption covers command() and the reboot / bootload helpers only.",
     "C05": " Requests of 63/64/65/128 characters (bytes on the wire compared), bare line ends as empty reads, "
            "RuntimeError as a fault, every request again under DEBUG logging; the restart-name exemption "
            "covers command() only."
@@ -254,16 +258,19 @@ ADDED = {
     "C07": " Command texts with braces / percent signs; a second board variant that acknowledges RB / BL, "
            "in five spellings alone, before and between other requests."
            " The data line that arrived before a fault is the answer; write clause on the bytes on the wire, LM requests of 63..75 characters; slow sessions; errno-carrying exceptions."
-           " Ports that say they are closed; ordinary queries beyond the model board's (QE, QN, QR, QU and look-alikes of the no-OK names); harvested pyserial fault texts.",
+           " Ports that say they are closed; ordinary queries beyond the model board's (QE, QN, QR, QU and look-alikes of the no-OK names); harvested pyserial fault texts."
+           " Ports reporting a read timeout of None, 0, 0.05, 1.5, 2, 5, 60 s.",
     "C08": " The lattice in units of 2^-40 and 2^+-600; kept-and-edited bounds objects; dots well inside must "
            "be accepted; 10368 slivers crossing an edge at 2^-38 / 2^-45 from parallel (an end may differ "
            "from the exact crossing only by a stretch nowhere inside by more than the tolerance)."
            " The lattice in subnormal units (2^-1030), mixed list/tuple points, keyword / mixed / decimal-context call forms."
-           " Answers kept across the next call or edited by the caller; a public module setting (PX_PER_INCH) changed beforehand.",
+           " Answers kept across the next call or edited by the caller; a public module setting (PX_PER_INCH) changed beforehand."
+           " Call forms from a fresh thread and in -O / -OO interpreters.",
     "C09": " Creeping near-repeat lists at 2^20 / 2^30, the lists in units of 2^+-200, strict ties on exact "
            "inputs, one vertex object at two positions."
            " Arcs of 1001..5000 vertices, vertices beyond the ends of long chords, tolerances down to 1e-14 of the chord, call forms."
-           " Retraced strokes; one window of c-1..c+2 and 2c+1 vertices for every constant up to 100000 in plot_utils' source (overshoot, back-track, bulge, zigzag); doubling-back dense strokes.",
+           " Retraced strokes; one window of c-1..c+2 and 2c+1 vertices for every constant up to 100000 in plot_utils' source (overshoot, back-track, bulge, zigzag); doubling-back dense strokes."
+           " 1824 lists with a vertex at distance exactly the tolerance from whole-number chords of length 1..30 (axis-parallel, 3:4, 5:12).",
     "C10": " One arch at flatness 2^-23 (2^16 pieces, 16 halvings in a row), needles, strict flatness for "
            "dyadic flatness values, input lists of 255..1300 (4097) nodes."
            " Shared list objects for equal points, handles past their node on long chords, one call yielding ~900000 pieces (float judgement with a guard band), call forms."
@@ -271,36 +278,43 @@ ADDED = {
     "C11": " Separator cases in units of 2^+-200 / 2^+-600; relative tolerance without floor; rejected calls "
            "as conditioning."
            " Title / swapped / all 16 case patterns of keywords; viewBoxes that restate the page size rounded (%g, %.3f, ...); call forms."
-           " Origins huge against sizes; the SVG number grammar spelt out (234 spellings) in each viewBox position.",
+           " Origins huge against sizes; the SVG number grammar spelt out (234 spellings) in each viewBox position."
+           " Call forms (incl. non-positive sizes) in -O / -OO interpreters and from a fresh thread.",
     "C12": " Numeric-text, Decimal, Fraction and bool references; two real lxml documents per text next to the stub."
            " Sign / point look-alike characters in numerals; call forms."
            " str-subclass attribute texts; one caller object across documents and one document edited in place (clause owner_reuse).",
     "C13": " The geometry scaled by 2^+-200 and shifted by 2^50; 145 grids with whole-number cell widths and "
            "queries bit-exactly on cell walls."
            " Grids of 100..400 (640) cells per side queried next to every end; call forms for the constructor, nearest and remove_path."
-           " Paths shorter than the underflow of their square; decimal (tenths) coordinates with queries half-way between ends; near-ties within 2^-46 relative accepted either way.",
+           " Paths shorter than the underflow of their square; decimal (tenths) coordinates with queries half-way between ends; near-ties within 2^-46 relative accepted either way."
+           " The large layouts also with 1 and 2 bins per side (hundreds of ends in one cell).",
     "C14": " Queries through a kept list object; coordinates in tenths, beyond 2^53 and near 1.6e308; crowded "
            "collections of 257..400 boxes."
            " Collections of 2400 (3600) boxes with a child node of 1300+, Python-int coordinates beyond 2^53; call forms."
-           " Identifiers that hash alike (-1 / -2); crowds of n frames plus 1..4 corner marks, n around round numbers and 1/r, 1/(1-r) for shares r in the source.",
+           " Identifiers that hash alike (-1 / -2); crowds of n frames plus 1..4 corner marks, n around round numbers and 1/r, 1/(1-r) for shares r in the source."
+           " 306 collections with a stroke 0..8 ulp from the mean of the box midpoints.",
     "C15": " Gate histories on one board and on re-plugged boards; error-line / foreign / pre-release banners; "
            "every gated feature in every call form (quiet, keywords, other arguments) x 12 versions."
            " A foreign banner containing 'ebb' in another case; SerialException carrying EBUSY during the handshake."
-           " Faults in reset_input_buffer() during the handshake; gated features with 20 nickname texts and 18 timeout / state pairs.",
+           " Faults in reset_input_buffer() during the handshake; gated features with 20 nickname texts and 18 timeout / state pairs."
+           " 748 ordered pairs of version questions that read alike when written together or swapped, the second one judged.",
     "C16": " 27 nicknames incl. full-length padded ones and names containing 'err', compared after the write "
            "and after the read-back."
            " Names from the protocol's and Python's vocabulary (EBB-2, OK, None, ...), read back by a second object on the same board; motor requests on boards reporting newer firmware."
            " Boards that are not factory-fresh (RAM 0xFF / 0x5A); second-object read-back.",
     "C18": " Tolerances and probes at 2^-60; a kept bounds object edited between calls."
            " Python ints beyond 2^53 as values, bounds and points; call forms."
-           " Infinite and extreme-float values and bounds; points outside by 0.85..1.2 tolerances; PX_PER_INCH changed beforehand.",
+           " Infinite and extreme-float values and bounds; points outside by 0.85..1.2 tolerances; PX_PER_INCH changed beforehand."
+           " Each call preceded by the same request in numbers of the other kind that compare equal (3 / 3.0, 2^53+2 / its float).",
     "C19": " Port names that are prefixes of one another (COM1 / COM12); names beginning or ending with a blank."
            " Description-only boards with hardware ids like n/a; names beginning like port names or tags; pairs equal under Unicode case folding only."
-           " Enumerations as generators / tuples; names containing field markers; names beginning with any short string literal of pyserial's port modules (\\\\.\\, COM, /dev/tty...).",
+           " Enumerations as generators / tuples; names containing field markers; names beginning with any short string literal of pyserial's port modules (\\\\.\\, COM, /dev/tty...)."
+           " One board under 40-odd kinds of device name (pyserial's glob patterns, macOS tty./cu. pairs, Windows names).",
     "C20": " Line-break tokens with parser-normalised expectations, patterns of 2^16 / 2^17 characters, every "
            "half millisecond below 10 s."
            " Sequences of XML construct delimiters (CDATA, comments, PIs); format_hms under five caller decimal contexts; call forms."
-           " Caller's time zone; equal-but-different arguments in a row (0.0 / -0.0, 1 / 1.0 / True).",
+           " Caller's time zone; equal-but-different arguments in a row (0.0 / -0.0, 1 / 1.0 / True)."
+           " 350 texts built from the string literals of text_utils' own source.",
 }
 
 PENDING = "check not built yet in this revision (planned, see DESIGN.md §3); not claimed"
